@@ -14,7 +14,15 @@ func (h *OwaBiasListener) Identifier() string {
 
 func (h *OwaBiasListener) Merge(params model.MethodParameters, addition model.MethodParameters) model.MethodParameters {
 	oldParams := params.(owaParams)
-	newParams := addition.(owaParams)
+	newParams, isOwaParams := addition.(owaParams)
+	if !isOwaParams {
+		// OnCriterionAdded describes the added criterion as a model.WeightType
+		added := make(model.WeightedCriteria, 0, 1)
+		for id, weight := range addition.(model.WeightType).Weights {
+			added = append(added, model.WeightedCriterion{Criterion: model.Criterion{Id: id}, Weight: weight})
+		}
+		newParams = owaParams{Weights: &added}
+	}
 	return *oldParams.merge(&newParams)
 }
 
